@@ -150,20 +150,24 @@ def jSc : Sc Rat → String
   | .bool b => if b then "true" else "false"
   | .null => "null"
 
+/- printing with an accumulator (the accumulator is used linearly, so `++` appends in place: linear in the size of
+   the reply also for value lists of 10^5 entries) -/
 mutual
-  def jDM : DM Rat → String
-    | .leaf v => jSc v
-    | .list l => "[" ++ jDML l ++ "]"
-    | .node kv => "{" ++ jDMKV kv ++ "}"
-  def jDML : List (DM Rat) → String
-    | [] => ""
-    | [x] => jDM x
-    | x :: xs => jDM x ++ "," ++ jDML xs
-  def jDMKV : List (String × DM Rat) → String
-    | [] => ""
-    | [(k, v)] => jStr k ++ ":" ++ jDM v
-    | (k, v) :: r => jStr k ++ ":" ++ jDM v ++ "," ++ jDMKV r
+  partial def jDMa (acc : String) : DM Rat → String
+    | .leaf v => acc ++ jSc v
+    | .list l => jDMLa (acc ++ "[") l ++ "]"
+    | .node kv => jDMKVa (acc ++ "{") kv ++ "}"
+  partial def jDMLa (acc : String) : List (DM Rat) → String
+    | [] => acc
+    | [x] => jDMa acc x
+    | x :: xs => jDMLa (jDMa acc x ++ ",") xs
+  partial def jDMKVa (acc : String) : List (String × DM Rat) → String
+    | [] => acc
+    | [(k, v)] => jDMa (acc ++ jStr k ++ ":") v
+    | (k, v) :: r => jDMKVa (jDMa (acc ++ jStr k ++ ":") v ++ ",") r
 end
+
+def jDM (t : DM Rat) : String := jDMa "" t
 
 def jList (l : List String) : String := "[" ++ ",".intercalate l ++ "]"
 
